@@ -144,16 +144,16 @@ def internalErr (pairs : List (String × String)) : Option String :=
     then some s!"violation internal-error op={k} `{opPart p.1}` {p.2}" else none) 0 pairs
 
 /-- The reference check: the read-only rows (and every plain query) are exactly the committed,
-    undeleted samples in range — `holdsFrom` on the op stream with `roq` read as a query answered by
-    the read-only open (a clean `roq`/`rofl` also ends the open transaction, like `reopen`). -/
-def typedOf (pairs : List (String × String)) : List (Op × Out) :=
+    undeleted samples in range — suite `db`'s judge (`Ref.step` / `holdsFrom` of C01, with its
+    classification of finding F28) on the op stream with `roq` read as a query answered by the
+    read-only open (a clean `roq`/`rofl` also ends the open transaction, like `reopen`). -/
+def refStream (pairs : List (String × String)) : List (String × String) :=
   pairs.flatMap fun p =>
     match parseX? p.1 with
-    | some (.base op) => [(op, parseOut op p.2)]
+    | some (.base _) => [(opPart p.1, p.2)]
     | some (.roq a b clean) =>
-      (if clean then [(Op.reopen, Out.ok)] else []) ++
-        [(Op.q a b, parseOut (Op.q a b) (kv (kvs p.1 p.2) "ro"))]
-    | some (.rofl clean) => if clean then [(Op.reopen, Out.ok)] else []
+      (if clean then [("reopen", "ok")] else []) ++ [(s!"q {a} {b}", kv (kvs p.1 p.2) "ro")]
+    | some (.rofl clean) => if clean then [("reopen", "ok")] else []
     | none => []
 
 def judgeWith (refCheck : Bool) (ops outs : List String) : String :=
@@ -165,13 +165,8 @@ def judgeWith (refCheck : Bool) (ops outs : List String) : String :=
     | some v => v
     | none =>
       if !refCheck then "ok" else
-      let typed := typedOf pairs
-      match holdsFrom {} typed 0 with
-      | none => "ok"
-      | some k =>
-        match typed[k]? with
-        | some (.q a b, o) => s!"violation query-mismatch step={k} range=[{a},{b}] got={renderOut o}"
-        | _ => s!"violation query-mismatch step={k}"
+      let r := refStream pairs
+      Prom.Db.judge (r.map (·.1)) (r.map (·.2))
 
 def suite : Suite := { name := "ro", model := model, judge := judgeWith true }
 
